@@ -340,7 +340,14 @@ def generate(o):
         if len(gens) != 1 or len(gens[0].generators) != 1:
             raise KeyError("one generator expression")
         g = gens[0].generators[0]
-        if not (isinstance(g.target, ast.Tuple) and len(g.target.elts) == 2 and ast.unparse(g.iter) == "enumerate(self._rows)"
+        over = ast.unparse(g.iter)
+        if isinstance(g.iter, ast.Call) and ast.unparse(g.iter.func) == "enumerate" and len(g.iter.args) == 1 and isinstance(g.iter.args[0], ast.Name):
+            # `rows = <snapshot of self._rows>` then `enumerate(rows)`: the same rows, numbered the same way
+            nm = g.iter.args[0].id
+            if any(isinstance(n, ast.Assign) and len(n.targets) == 1 and ast.unparse(n.targets[0]) == nm and "self._rows" in ast.unparse(n.value)
+                   for n in ast.walk(fn)):
+                over = "enumerate(self._rows)"
+        if not (isinstance(g.target, ast.Tuple) and len(g.target.elts) == 2 and over == "enumerate(self._rows)"
                 and ast.unparse(gens[0].elt) == ast.unparse(g.target.elts[1]) and len(g.ifs) == 1):
             raise KeyError("(m for i, m in enumerate(self._rows) if <test>)")
         c = g.ifs[0]
